@@ -485,7 +485,9 @@ func (k *checker) findingKey(clause string, p fpair, ctx int) string {
 		switch {
 		case cur.kind() == "typechange" && !strings.HasPrefix(f, "path"):
 			continue // a type change is one defect class whatever the contents are
-		case (cur.kind() == "mode-only" || cur.kind() == "modify+mode") && f == "exec":
+		case cur.kind() == "mode-only" && !strings.HasPrefix(f, "path"):
+			continue // identical contents never reach the patch text
+		case cur.kind() == "modify+mode" && f == "exec":
 			continue // intrinsic to the kind
 		}
 		feats = append(feats, f)
@@ -568,7 +570,7 @@ func run(c *vf.Ctx) {
 	g := gitx.New(c.Scratch)
 	g.Env = append(g.Env, "GIT_CEILING_DIRECTORIES="+c.Scratch)
 	k := &checker{c, g}
-	nCases := c.N(500, 6000)
+	nCases := c.N(300, 2000)
 	batchSize := 50
 	// all generation up front, sequentially (deterministic)
 	var cases []tcase
@@ -620,11 +622,12 @@ func run(c *vf.Ctx) {
 		}
 	})
 	c.Extra("git_invocations", gitx.Calls.Load())
-	c.Floor("cases", c.Counter("cases_checked"), c.N(450, 5500))
-	c.Floor("git apply runs accepted with identical result", c.Counter("apply_ok"), c.N(300, 4000))
-	c.Floor("text file patches applied", c.Counter("file_patches_applied"), c.N(1000, 12000))
-	c.Floor("stats compared with git numstat", c.Counter("stats_compared"), c.N(1000, 12000))
-	c.Floor("binary pairs", c.Counter("binary_pairs"), c.N(20, 250))
+	c.Floor("cases", c.Counter("cases_checked"), c.N(280, 1900))
+	c.Floor("git apply runs accepted with identical result", c.Counter("apply_ok"), c.N(180, 1300))
+	c.Floor("text file patches applied", c.Counter("file_patches_applied"), c.N(600, 4000))
+	c.Floor("stats compared with git numstat", c.Counter("stats_compared"), c.N(600, 4000))
+	c.Floor("binary pairs", c.Counter("binary_pairs"), c.N(10, 80))
+	c.Floor("patches with rename sections applied", c.Counter("rename_patches"), c.N(4, 40))
 	c.Floor("distinct tags", c.SeenCount("tags"), 25)
 	c.Assume("git 2.39.5 `git apply` (outside a repository, plain files) and `git diff-tree --numstat --no-renames` are the reference; rename detection is off on both sides (object.DiffTree)")
 	c.Assume("a pair is binary when either side has a NUL in its first 8000 bytes (git's and go-git's rule); for such pairs only the marker and git's consistent refusal/acceptance are checked")
@@ -811,17 +814,59 @@ func (k *checker) checkCase(r *git.Repository, tc tcase, oldID, newID string, nu
 			c.Count("apply_ok", 1)
 			c.Count("file_patches_applied", len(textFps))
 		} else {
-			// attribute to single files
+			// attribute to single files: first the files git's error output names, then the rest in one go
 			attributed := false
-			for _, fp := range textFps {
+			failing := map[string]bool{}
+			tryOne := func(fp fdiff.FilePatch) {
 				p := byPath[fpPath(fp)]
 				clause, detail := k.singleFails(p, tc.ctx)
 				if clause == "" {
-					continue
+					return
 				}
 				attributed = true
+				failing[p.Path] = true
 				key := k.findingKey(clause, p, tc.ctx)
 				k.fail(mu, reported, key, fmt.Sprintf("%q (%s): %s", p.Path, p.Tag, detail), replayOf(p, tc.ctx))
+			}
+			tried := map[string]bool{}
+			for _, fp := range textFps {
+				pth := fpPath(fp)
+				if strings.Contains(stderr, pth) || byPath[pth].kind() == "typechange" {
+					tried[pth] = true
+					tryOne(fp)
+				}
+			}
+			var rest []fdiff.FilePatch
+			wantRest := gen.Tree{}
+			for p, f := range old {
+				wantRest[p] = f
+			}
+			for _, fp := range textFps {
+				pth := fpPath(fp)
+				if failing[pth] {
+					continue
+				}
+				rest = append(rest, fp)
+				delete(wantRest, pth)
+				if f, ok := nw[pth]; ok {
+					wantRest[pth] = f
+				}
+			}
+			restOK := false
+			if attributed && len(rest) > 0 {
+				if t2, perr := encode(rest, tc.ctx); perr == nil {
+					if ok2, _, d2, err2 := k.applyIn(old, t2, tc.ctx, wantRest); err2 == nil && ok2 && len(d2) == 0 {
+						restOK = true
+						c.Count("file_patches_applied", len(rest))
+					}
+				}
+			}
+			if !restOK {
+				for _, fp := range rest {
+					if !tried[fpPath(fp)] {
+						tryOne(fp)
+					}
+				}
 			}
 			if !attributed {
 				what := "git apply rejected the multi-file patch: " + strings.TrimSpace(stderr)
@@ -874,7 +919,75 @@ func (k *checker) checkCase(r *git.Repository, tc tcase, oldID, newID string, nu
 				c.Count("binary_patch_refused", 1)
 				if !strings.Contains(stderr, "binary patch") && !strings.Contains(stderr, "without full index") {
 					// the refusal must be about the binary section; if the text part was fine above this is a different problem
-					k.fail(mu, reported, "binary:refused-for-other-reason", "git apply refused the full patch, not because of missing binary data: "+strings.TrimSpace(stderr), caseReplay())
+					bkey := "binary:refused-for-other-reason"
+					for pth, ns := range nums {
+						if ns.binary && pathFeature(pth) == "path-needs-cquote" {
+							bkey += ":path-needs-cquote"
+							break
+						}
+					}
+					k.fail(mu, reported, bkey, "git apply refused the full patch, not because of missing binary data: "+strings.TrimSpace(stderr), caseReplay())
+				}
+			}
+		}
+	}
+	// ---- clause rename-patch: the same pair through Commit.Patch (rename detection on). Without detected renames the
+	// text must be identical to the DiffTree one; with renames git apply must still reproduce the new tree.
+	if textOK && len(excluded) == 0 {
+		var rfps []fdiff.FilePatch
+		var rerr error
+		pv, stack := vf.Catch(func() {
+			co, err := r.CommitObject(plumbing.NewHash(oldID))
+			if err != nil {
+				rerr = err
+				return
+			}
+			cn, err := r.CommitObject(plumbing.NewHash(newID))
+			if err != nil {
+				rerr = err
+				return
+			}
+			pa, err := co.Patch(cn)
+			if err != nil {
+				rerr = err
+				return
+			}
+			rfps = pa.FilePatches()
+		})
+		switch {
+		case pv != nil:
+			k.fail(mu, reported, "panic:commit-patch", fmt.Sprintf("Commit.Patch panicked: %v\n%s", pv, stack), caseReplay())
+		case rerr != nil:
+			k.fail(mu, reported, "gogit-error:commit-patch", "Commit.Patch: "+rerr.Error(), caseReplay())
+		default:
+			renames := 0
+			for _, fp := range rfps {
+				from, to := fp.Files()
+				if from != nil && to != nil && from.Path() != to.Path() {
+					renames++
+				}
+			}
+			c.Count("commit_patch_calls", 1)
+			t1, e1 := encode(fps, tc.ctx)
+			t2, e2 := encode(rfps, tc.ctx)
+			switch {
+			case e1 != nil || e2 != nil:
+			case renames == 0:
+				if sectionSet(t1) != sectionSet(t2) { // the order of the sections is not part of the property
+					k.fail(mu, reported, "rename-patch:differs-without-renames", "Commit.Patch (rename detection on, no rename found) differs from DiffTree().Patch(): "+sectionDiff(t1, t2), caseReplay())
+				}
+			default:
+				c.Count("rename_patches", 1)
+				ok, stderr, diffs, err := k.applyIn(old, t2, tc.ctx, nw)
+				switch {
+				case err != nil:
+					c.Broken("harness: %v", err)
+				case !ok:
+					k.fail(mu, reported, "rename-patch:apply-rejected", "git apply rejected the patch with rename sections: "+strings.TrimSpace(stderr)+" :: "+strconv.Quote(trunc(t2, 700)), caseReplay())
+				case len(diffs) > 0:
+					k.fail(mu, reported, "rename-patch:apply-wrong-result", strings.Join(diffs, "; ")+" :: "+strconv.Quote(trunc(t2, 700)), caseReplay())
+				default:
+					c.Count("rename_patches_applied", 1)
 				}
 			}
 		}
@@ -955,4 +1068,36 @@ func uniqStr(in []string) []string {
 		}
 	}
 	return out
+}
+
+// sectionSet canonicalises a patch text as the sorted multiset of its per-file sections.
+func sectionSet(t string) string {
+	parts := strings.Split("\n"+strings.TrimSuffix(t, "\n"), "\ndiff --git ")
+	sort.Strings(parts)
+	return strings.Join(parts, "\ndiff --git ")
+}
+
+func sectionDiff(a, b string) string {
+	pa := strings.Split("\n"+strings.TrimSuffix(a, "\n"), "\ndiff --git ")
+	pb := strings.Split("\n"+strings.TrimSuffix(b, "\n"), "\ndiff --git ")
+	in := func(l []string, x string) bool {
+		for _, y := range l {
+			if x == y {
+				return true
+			}
+		}
+		return false
+	}
+	var out []string
+	for _, x := range pa {
+		if !in(pb, x) {
+			out = append(out, "only DiffTree: "+strconv.Quote(trunc(x, 400)))
+		}
+	}
+	for _, x := range pb {
+		if !in(pa, x) {
+			out = append(out, "only Commit.Patch: "+strconv.Quote(trunc(x, 400)))
+		}
+	}
+	return strings.Join(out, " || ")
 }
